@@ -2,6 +2,7 @@ package main
 
 import (
 	"go/ast"
+	"go/constant"
 	"strings"
 
 	"golang.org/x/tools/go/packages"
@@ -91,25 +92,203 @@ func targets() []*target {
 				}
 				return nil
 			}},
+
+		// ---- second generation (strict: see the head of decisions.go) ----
+		{pkg: slogPkg, recv: "dualWriter", fn: "Get", coq: "route", file: "Routing", strict: true, fallback: "GenRef.route_ref",
+			comment: "(routing of a severity; writer lists are lists of members, s.leveled is a nil-able map)",
+			tymap:   map[string]string{"LWs": "list member"},
+			params:  []string{"(m_mLevelUseErrorDevice : list (Z * bool))", "(g_discardWriter s_Normal s_Error : list member)", "(s_leveled : gomap (list member))", "(lvl : Z)"},
+			result:  "list member", final: "w"},
+
+		// LWs.WriteLeveled / LWs.Write: a fold over the members; what the outside world does is an oracle:
+		//   wres k            = (count, failed) of the k-th Write attempt of the history
+		//   as_T_of_S         = the type assertion v.(T) on a value of static type S (Some = it holds)
+		//   fld_Writer        = the field Writer of a *logwr cell
+		// effects are threaded as tr_ (the trace of SetLevel / Write events) and k_ (the attempt clock)
+		{pkg: slogPkg, recv: "LWs", fn: "WriteLeveled", coq: "write_leveled", file: "Delivery", strict: true, fallback: "GenRef.write_leveled_ref",
+			comment: "(fold over the members; returns (n, err, trace, clock))",
+			tymap:   deliveryTypes("member"), fields: map[string]string{"Writer": "fld_Writer"}, effects: []string{"tr_", "k_"},
+			calls: map[string]callSpec{
+				"LevelSettable.SetLevel": {ev: "EvSet %r %0"},
+				"LogWriter.Write":        {res: "io_write wres k_", ev: "EvWrite (member_id %r)", tick: true},
+				"errors.Join":            {pure: "err_join %0 %1"},
+			},
+			params: []string{"(as_LevelSettable_of_LogWriter as_logwr_of_LogWriter : member -> option wid)", "(fld_Writer : wid -> wid)",
+				"(as_LevelSettable_of_io_Writer : wid -> option wid)", "(wres : nat -> Z * bool)",
+				"(s : list member)", "(lvl : Z)", "(p : bytes)", "(tr_ : list wevent)", "(k_ : nat)"},
+			result: "Z * error * list wevent * nat", final: "(n, err, tr_, k_)"},
+		{pkg: slogPkg, recv: "LWs", fn: "Write", coq: "write_plain", file: "Delivery", strict: true, fallback: "GenRef.write_plain_ref",
+			comment: "(fold over the members; returns (n, err, trace, clock))",
+			tymap:   deliveryTypes("member"), effects: []string{"tr_", "k_"},
+			calls: map[string]callSpec{
+				"LogWriter.Write": {res: "io_write wres k_", ev: "EvWrite (member_id %r)", tick: true},
+				"errors.Join":     {pure: "err_join %0 %1"},
+			},
+			params: []string{"(wres : nat -> Z * bool)", "(s : list member)", "(p : bytes)", "(tr_ : list wevent)", "(k_ : nat)"},
+			result: "Z * error * list wevent * nat", final: "(n, err, tr_, k_)"},
+		// Entry.printOut: findWriter is an oracle (C03 ties it), WriteLeveled is the translation above,
+		// the nested s.Warn(..) is the LAST thing the function does: it ends in PoWarn (the caller of the
+		// theorem continues with the model of Warn) or in PoReturn
+		{pkg: slogPkg, recv: "Entry", fn: "printOut", coq: "print_out", file: "Delivery", strict: true, fallback: "GenRef.print_out_ref",
+			comment: "(ends in PoReturn or, with the nested diagnostic pending, in PoWarn)",
+			tymap:   deliveryTypes("logwriter"), effects: []string{"tr_", "k_"}, nilTest: map[string]string{"logwriter": "lw_is_nil"},
+			calls: map[string]callSpec{
+				"*Entry.findWriter":      {pure: "f_findWriter %0"},
+				"LWs.WriteLeveled":       {state: "write_leveled asm_LevelSettable asm_logwr fld_Writer as_LevelSettable_of_io_Writer wres %r %0 %1 tr_ k_"},
+				"LevelSettable.SetLevel": {ev: "EvSet %r %0"},
+				"LogWriter.Write":        {res: "io_write wres k_", ev: "EvWrite (lw_id %r)", tick: true},
+				"collectWrittenBytes":    {ignore: true},
+				"*Entry.Warn":            {tail: "PoWarn"},
+				// anything else the function could end with is translated too, so that such an edit breaks
+				// the proof instead of falling back
+				"LWs.Write":    {state: "write_plain wres %r %0 tr_ k_"},
+				"*Entry.Error": {tail: "PoOther"}, "*Entry.Info": {tail: "PoOther"}, "*Entry.Debug": {tail: "PoOther"},
+				"*Entry.Trace": {tail: "PoOther"}, "*Entry.Fatal": {tail: "PoOther"}, "*Entry.Panic": {tail: "PoOther"},
+				"*Entry.Print": {tail: "PoOther"}, "*Entry.Println": {tail: "PoOther"},
+			},
+			params: []string{"(asm_LevelSettable asm_logwr : member -> option wid)", "(fld_Writer : wid -> wid)", "(as_LevelSettable_of_io_Writer : wid -> option wid)",
+				"(as_LWs_of_LogWriter : logwriter -> option (list member))", "(as_LevelSettable_of_LogWriter : logwriter -> option wid)",
+				"(f_findWriter : Z -> logwriter)", "(wres : nat -> Z * bool)", "(lvl : Z)", "(msg : bytes)", "(tr_ : list wevent)", "(k_ : nat)"},
+			result: "po_result", final: "(PoReturn tr_ k_)"},
+
+		// ---- level names (C17; C06 and C09 print them) ----
+		{pkg: slogPkg, recv: "Level", fn: "String", coq: "level_string", file: "LevelNames", strict: true, fallback: "LevelRef.level_string_ref",
+			params: []string{"(m_levelToString : list (Z * bytes))", "(level : Z)"}, result: "bytes", final: "(@nil byte)"},
+		// None = the call panics (length outside 1..5, or a slice / Repeat out of range)
+		{pkg: slogPkg, recv: "Level", fn: "ShortTag", coq: "short_tag", file: "LevelNames", strict: true, fallback: "LevelRef.short_tag_ref",
+			comment: "(None = the call panics)", panicT: "None", retfmt: "Some (%s)",
+			calls:  map[string]callSpec{"Level.String": {pure: "level_string m_levelToString %r"}},
+			params: []string{"(m_shortTagMap : list (Z * list (Z * bytes)))", "(m_levelToString : list (Z * bytes))", "(level : Z)", "(length_ : Z)"},
+			result: "option bytes", final: "None"},
+		// the warning about an unknown name is an event of the trace tr_; the error value is abstracted to
+		// nil / non-nil (option unit)
+		{pkg: slogPkg, recv: "", fn: "ParseLevel", coq: "parse_level", file: "LevelNames", strict: true, fallback: "LevelRef.parse_level_ref",
+			comment: "(returns (level, err, trace))", tymap: map[string]string{"error": "option unit"}, effects: []string{"tr_"},
+			calls: map[string]callSpec{
+				"fmt.Errorf":      {pure: "Some tt"},
+				"defaultLog.Warn": {ev: "EvWarnUnknown %2"},
+			},
+			params: []string{"(m_stringToLevel : list (bytes * Z))", "(lvl : bytes)", "(tr_ : list lvl_event)"},
+			result: "Z * option unit * list lvl_event", final: "(0, None, tr_)"},
+
+		// ---- attribute assembly (C07) ----
+		// a *Entry is seen as the chain of own attribute lists from it up to the root (nil = the empty
+		// chain): e.attrs / e.owner are the head / the tail.  *kvps is threaded through as the binder
+		// kvps.  The recursive call is the parameter rec_ (open recursion: the theorem is the induction step).
+		{pkg: slogPkg, recv: "Entry", fn: "walkParentAttrs", coq: "walk_parent_attrs", file: "Assembly", strict: true, fallback: "CollectRef.walk_parent_attrs_ref",
+			comment: "(returns *kvps)", effects: []string{"kvps"},
+			tymap:   map[string]string{"*Entry": "list (list attr)", "Attrs": "list attr", "*Attrs": "list attr"},
+			nilTest: map[string]string{"list (list attr)": "chain_is_nil"},
+			fields:  map[string]string{"attrs": "chain_attrs", "owner": "chain_owner"}, globals: []string{"chain_attrs", "chain_owner"},
+			calls: map[string]callSpec{
+				"IsAnyBitsSet":           {pure: "negb (Z.land g_flags %0 =? 0)"},
+				"*Entry.walkParentAttrs": {state: "rec_ %2 %3"},
+			},
+			params: []string{"(rec_ : list (list attr) -> list attr -> list attr)", "(g_flags : Z)", "(ctx : unit)", "(lvl : Z)", "(e : list (list attr))", "(kvps : list attr)"},
+			result: "list attr", final: "kvps"},
+		{pkg: slogPkg, recv: "Entry", fn: "collectArgs", coq: "collect_args", file: "Assembly", strict: true, fallback: "CollectRef.collect_args_ref",
+			comment: "(returns *kvps; s is the logger's chain, s_attrs its own attributes)", effects: []string{"kvps"},
+			tymap: map[string]string{"*Entry": "list (list attr)", "Attrs": "list attr", "*Attrs": "list attr", "[]any": "list attr"},
+			calls: map[string]callSpec{
+				"IsAnyBitsSet":           {pure: "negb (Z.land g_flags %0 =? 0)"},
+				"*Entry.ctxKeysWanted":   {pure: "s_ctxKeysWanted"},
+				"*Entry.fromCtx":         {state: "f_fromCtx %0 %1"},
+				"*Entry.walkParentAttrs": {state: "f_walk %2 %3"},
+				"argsToAttrs":            {state: "f_argsToAttrs %0 %1", spread: true},
+			},
+			params: []string{"(f_fromCtx : unit -> list attr -> list attr)", "(f_walk : list (list attr) -> list attr -> list attr)",
+				"(f_argsToAttrs : list attr -> list attr -> list attr)", "(g_flags : Z)", "(s_ctxKeysWanted : bool)", "(s : list (list attr))", "(s_attrs : list attr)",
+				"(ctx : unit)", "(kvps : list attr)", "(roughSize : Z)", "(lvl : Z)", "(args : list attr)"},
+			result: "list attr", final: "kvps"},
+
+		// ---- path hardening (C18) ----
+		// None = the call panics (an index or slice out of range)
+		{pkg: slogPkg, recv: "", fn: "underDir", coq: "under_dir", file: "Paths", strict: true, fallback: "PathRef.under_dir_ref",
+			comment: "(None = the call panics)", panicT: "None", retfmt: "Some (%s)",
+			calls: map[string]callSpec{
+				"strings.HasPrefix":  {pure: "has_prefix %0 %1"},
+				"os.IsPathSeparator": {pure: "%0 =? 47"}, // unix: '/' only
+			},
+			params: []string{"(file dir : bytes)"}, result: "option bool", final: "None"},
+		// knownPathMap is ranged in the order of the table m_knownPathMap (the theorems quantify over its
+		// permutations); the regexps are abstract (rx_matches / rx_replace of Model/Path.v); os.Getwd and
+		// filepath.Rel are the parameters g_cwd and f_rel ("" = the error case, as in the code)
+		{pkg: slogPkg, recv: "", fn: "checkpath", coq: "checkpath", file: "Paths", strict: true, fallback: "PathRef.checkpath_ref",
+			comment: "(None = the call panics)", panicT: "None", retfmt: "Some (%s)",
+			tymap:  map[string]string{"regRepl": "rx", "*regexp.Regexp": "rx", "error": "unit"},
+			fields: map[string]string{"expr": "rx_expr", "repl": "rx_repl"}, globals: []string{"rx_expr", "rx_repl"},
+			calls: map[string]callSpec{
+				"IsAnyBitsSet":                    {pure: "negb (Z.land g_flags %0 =? 0)"},
+				"underDir":                        {pure: "under_dir %0 %1", partial: true},
+				"strings.HasPrefix":               {pure: "has_prefix %0 %1"},
+				"strings.IndexRune":               {pure: "str_index_byte %0 %1", check: asciiRuneArg},
+				"filepath.IsAbs":                  {pure: "is_abs %0"},
+				"*regexp.Regexp.MatchString":      {pure: "rx_matches %r %0"},
+				"*regexp.Regexp.ReplaceAllString": {pure: "rx_replace %r %0"},
+				"os.Getwd":                        {res: "(g_cwd, tt)"},
+				"filepath.Rel":                    {res: "(f_rel %0 %1, tt)"},
+			},
+			params: []string{"(f_rel : bytes -> bytes -> bytes)", "(g_flags : Z)", "(m_knownPathMap : list (bytes * bytes))",
+				"(g_knownPathRegexpMap : list rx)", "(g_cwd : bytes)", "(file : bytes)"},
+			result: "option bytes", final: "None"},
 	}
 }
 
-func genDecisions() string {
+// asciiRuneArg: strings.IndexRune(s, r) is the index of the BYTE r only for a constant r < utf8.RuneSelf
+func asciiRuneArg(x *tr, c *ast.CallExpr) string {
+	if len(c.Args) == 2 {
+		if tv, ok := x.p.TypesInfo.Types[c.Args[1]]; ok && tv.Value != nil && tv.Value.Kind() == constant.Int {
+			if v, exact := constant.Int64Val(tv.Value); exact && v >= 0 && v < 128 {
+				return ""
+			}
+		}
+	}
+	return "IndexRune with a rune that is not an ASCII constant"
+}
+
+// Go types of the delivery functions -> Coq types; a LogWriter is a member of a list in LWs.*, and
+// whatever findWriter returned (nil, a list, a single writer) in printOut
+func deliveryTypes(logWriter string) map[string]string {
+	return map[string]string{"LogWriter": logWriter, "LWs": "list member", "LevelSettable": "wid", "*logwr": "wid", "io.Writer": "wid",
+		"error": "error", "[]byte": "bytes"}
+}
+
+// the generated files of the translator: name, Require line
+var genFiles = [][2]string{
+	{"Decisions", "Require Import Verif.Model.Base Verif.Model.Decision Verif.Model.DecisionRef Verif.Model.Level."},
+	{"Routing", "Require Import Verif.Model.Base Verif.Model.Decision Verif.Model.GoSem Verif.Model.Writers Verif.Model.GenRef."},
+	{"Delivery", "Require Import Verif.Model.Base Verif.Model.Decision Verif.Model.GoSem Verif.Model.Writers Verif.Model.GenRef."},
+	{"Assembly", "Require Import Verif.Model.Base Verif.Model.Decision Verif.Model.GoSem Verif.Model.Attrs Verif.Model.Collect Verif.Model.CollectRef."},
+	{"Paths", "Require Import Verif.Model.Base Verif.Model.Decision Verif.Model.GoSem Verif.Model.Path Verif.Model.PathRef."},
+	{"LevelNames", "Require Import Verif.Model.Base Verif.Model.Decision Verif.Model.Dec Verif.Model.GoSem Verif.Model.LevelRef."},
+}
+
+func genDecisions(file, require string) string {
 	var sb strings.Builder
 	sb.WriteString("(* GENERATED from /repo by /verif/extract - do not edit.\n   Gallina translations of the decision functions (DESIGN.md appendix B).\n   A site outside the fragment falls back on the reference definition and is flagged [translated_* = false]. *)\n")
-	sb.WriteString("Require Import Verif.Model.Base Verif.Model.Decision Verif.Model.DecisionRef Verif.Model.Level.\n\n")
+	sb.WriteString(require + "\n\n")
 	for _, t := range targets() {
+		if t.file != file && !(t.file == "" && file == "Decisions") {
+			continue
+		}
 		def, ok, why := translate(t)
 		if ok {
 			sb.WriteString(def)
 			sb.WriteString("Definition translated_" + t.coq + " := true.\n\n")
 			site("decision:"+t.coq, "translated")
 		} else {
-			sb.WriteString("(* untranslatable: " + t.recv + "." + t.fn + ": " + strings.ReplaceAll(why, "*)", "* )") + " *)\n")
+			sb.WriteString("(* untranslatable: " + t.recv + "." + t.fn + ": " + commentSafe(why) + " *)\n")
 			sb.WriteString("Definition " + t.coq + " := " + t.fallback + ".\n")
 			sb.WriteString("Definition translated_" + t.coq + " := false.\n\n")
 			site("decision:"+t.coq, "fallback: "+why)
 		}
 	}
 	return sb.String()
+}
+
+// commentSafe: text that can stand inside a Coq comment (a double quote would open a string there)
+func commentSafe(s string) string {
+	s = strings.ReplaceAll(s, "*)", "* )")
+	s = strings.ReplaceAll(s, "(*", "( *")
+	return strings.ReplaceAll(s, "\"", "'")
 }
